@@ -25,12 +25,20 @@ struct HarnessBase {
 static HarnessBase * g_h = nullptr;
 
 // The callback object. Comparable (by tag) so that it can also be used as Policies::Callback.
+// how many times the harness has seen callback id run (reset at the start of every execution)
+static std::vector<int> & fnCalls() { static std::vector<int> v; return v; }
 struct Fn : TrackedBase<TC_CALLBACK> {
 	int tag;
-	explicit Fn(int id_ = 0, int tag_ = 0) : TrackedBase<TC_CALLBACK>(id_), tag(tag_) {}
+	mutable int calls;      // the callback's own state: the list has to keep invoking the object it stored, not copies of it
+	explicit Fn(int id_ = 0, int tag_ = 0) : TrackedBase<TC_CALLBACK>(id_), tag(tag_), calls(0) {}
 	void operator()(int v, const std::string & s) const {
 		int myId = id;
 		if(!alive()) return;
+		if(myId >= 0) {
+			if((int)fnCalls().size() <= myId) fnCalls().resize(myId + 1, 0);
+			++calls; ++fnCalls()[myId];
+			if(calls != fnCalls()[myId]) gctx()->fail("callback-state-lost", fmt("callback %d is at its invocation number %d, the list has run it %d times: it is not the stored callback object that runs", myId, calls, fnCalls()[myId]));
+		}
 		g_h->onCall(myId, v, s);
 		// the callback object must still be alive when its own invocation ends
 		if(!ledger().touch(this, TC_CALLBACK, myId)) gctx()->fail("callback-destroyed-while-running", fmt("callback %d was destroyed before its own invocation returned", myId));
@@ -452,7 +460,7 @@ struct Harness : HarnessBase {
 	}
 
 	void body(Bfs & b) {
-		ledger().reset();
+		ledger().reset(); fnCalls().clear();
 		order[0].clear(); order[1].clear(); handleOf.clear(); listOf.clear(); tagOf.clear(); aliveM.clear(); frames.clear();
 		for(int i = 0; i < 4; ++i) slot[i] = -1;
 		adds = 0;
